@@ -613,7 +613,8 @@ func extArgPool() []extArg {
 	I, F, B, N, S, A, M, FN, R := object.INTEGER, object.FLOAT, object.BOOLEAN, object.NIL, object.STRING, object.ARRAY,
 		object.MAP, object.FUNC, object.REFERENCE
 	return []extArg{
-		{"7", I, I, nil}, {"2.5", F, F, nil}, {"true", B, B, nil}, {"nil", N, N, nil}, {`"a"`, S, S, nil},
+		{"7", I, I, nil}, {"2.5", F, F, nil}, {"true", B, B, nil}, {"nil", R, N, nil}, {"first([])", N, N, nil}, {`"a"`, S, S, nil},
+		// (nil is an identifier bound in the root environment: inside a function it arrives as a reference)
 		{"[1,2.5]", A, A, []extArg{{"", I, I, nil}, {"", F, F, nil}}}, {"[]", A, A, nil}, {`["x"]`, A, A, []extArg{{"", S, S, nil}}},
 		{"{1:2}", M, M, nil}, {"(x=>x)", FN, FN, nil},
 		{"r1", R, I, nil}, {"r2", R, F, nil}, {"r8", R, S, nil}, {"r3", R, B, nil},
